@@ -10,7 +10,7 @@ use crate::{
     oracles::short,
     policy::{ActCmd, DagAction, DagCmd, Eff, Op, Place, RecSink, SinkEv, WPrio, Wire},
     replica::Guarded,
-    sim::{CraftItem, ItemKind, Sel, Sim},
+    sim::{Found, CraftItem, ItemKind, Sel, Sim},
     with_rep,
 };
 
@@ -568,6 +568,11 @@ impl Sim {
         self.history_hash[r] = vcommon::fnv(&hh);
         match &pred.err {
             Some(ExpErr::Rejected) => {
+                with_rep!(&mut self.reps[r], rep => {
+                    if let Some(Some(trx)) = rep.trxs.get_mut(t) {
+                        trx.had_rejection = true;
+                    }
+                });
                 self.last_rejected[r] = pred.rejected_cmd;
                 self.stats.bump("rejected_at_origin");
                 if !pred.accepted.is_empty() || with_rep!(&self.reps[r], rep => rep.trxs[t].as_ref().is_some_and(|x| !x.acc.is_empty())) {
@@ -590,6 +595,11 @@ impl Sim {
             Some(ExpErr::NoSuchParent(_)) => self.stats.bump("no_such_parent"),
             Some(ExpErr::Unparsable) => {}
             Some(ExpErr::BadParentCut) => {
+                with_rep!(&mut self.reps[r], rep => {
+                    if let Some(Some(trx)) = rep.trxs.get_mut(t) {
+                        trx.had_rejection = true;
+                    }
+                });
                 // The rule may or may not have been evaluated before the refusal; either way its
                 // effects must be rolled back and nothing of it may stay (later state checks).
                 self.log.borrow_mut().evals.retain(|e| Some(e.id) != pred.rejected_cmd);
@@ -709,7 +719,31 @@ impl Sim {
         Some((heads.iter().map(|h| (h.id, h.max_cut.get())).collect(), crate::oracles::dump_hash(&dump.0)))
     }
 
+    /// Commit of a transaction. When the transaction had refused a command at origin, everything
+    /// the state oracles find at this commit is also a trace of that command (C06: the committed
+    /// state must be what it would be had the command never been presented - which is exactly
+    /// what the model, which never applies it, predicts).
     pub fn step_commit(&mut self, r: usize, t: usize, spill_fault: Option<u32>, per_addr: bool) {
+        let had_rejection = self.trx_exists(r, t) && with_rep!(&self.reps[r], rep => rep.trxs[t].as_ref().is_some_and(|x| x.had_rejection && !x.dead));
+        let before = self.found.len();
+        self.step_commit_inner(r, t, spill_fault, per_addr);
+        if had_rejection && self.found.len() > before {
+            let extra: Vec<Found> = self.found[before..]
+                .iter()
+                .filter(|f| f.property != "C06")
+                .map(|f| Found {
+                    property: "C06".into(),
+                    class: format!("C06.trace/{}", f.class),
+                    sig: format!("rejected-command-left-trace:{}", f.sig),
+                    detail: format!("commit of a transaction that had refused a command at origin; the model, which never applies that command, predicts otherwise: {}", f.detail),
+                    step: f.step,
+                })
+                .collect();
+            self.found.extend(extra);
+        }
+    }
+
+    fn step_commit_inner(&mut self, r: usize, t: usize, spill_fault: Option<u32>, per_addr: bool) {
         let Some(gid) = self.gid else { return };
         if !self.trx_exists(r, t) {
             return;
